@@ -97,6 +97,28 @@ def prove_pairs(res, oid, pairs, hyp=None, sampler=None, pv=None, call=None, bac
         if sampler is not None and not expect_fail:
             pc = (lambda env: engine.path_holds(pv, env)) if pv is not None else None
             wit = engine.numeric_witness(failed, sampler, seed=seed, rtol=rtol, pathcond=pc)
+            if wit is None and pv is not None:
+                # path conditions of the form  input == constant  are never hit by random sampling: pin them, and shrink
+                # the sibling coefficients so that a unit-norm constraint still holds to rounding (e.g. q_w == 1)
+                pins = {}
+                for (cond, choice, *_r) in pv.atoms:
+                    if cond.op == "fcmp" and cond.args[1].op == "var" and cond.args[2].op == "const":
+                        ps = engine.symex.pred_set(cond.args[0])
+                        poss = ps if choice else (engine.symex.ALL4 - ps)
+                        if poss - {"UN"} == {"EQ"}:
+                            pins[cond.args[1].args[0]] = float(cond.args[2].args[0])
+                if pins:
+                    def pinned(rng, _s=sampler):
+                        e = _s(rng)
+                        for nm, cval in pins.items():
+                            pre = nm.rstrip("0123456789")
+                            sc = 10 ** rng.uniform(-10, -7)
+                            for k in list(e):
+                                if k != nm and k.rstrip("0123456789") == pre and abs(cval) == 1.0:
+                                    e[k] *= sc
+                            e[nm] = cval
+                        return e
+                    wit = engine.numeric_witness(failed, pinned, seed=seed, rtol=1e-13, pathcond=pc)
         for entry, l, r in failed:
             if expect_fail:
                 res.add("%s/%s" % (oid, entry), "canary-refuted", backend, dt)
@@ -110,7 +132,8 @@ def prove_pairs(res, oid, pairs, hyp=None, sampler=None, pv=None, call=None, bac
                 try:
                     val = dag.eval_ieee([l, r], wit["env"])
                     w = dict(env=fmt_env(wit["env"]), lhs=val[l.id], rhs=val[r.id])
-                    if not (abs(val[l.id] - val[r.id]) > rtol * (1 + abs(val[l.id]) + abs(val[r.id]))):
+                    rt = wit.get("rtol", rtol)
+                    if not (abs(val[l.id] - val[r.id]) > rt * (1 + abs(val[l.id]) + abs(val[r.id]))):
                         w["note"] = "this entry does not differ at the witness found for entry %s" % wit["entry"]
                 except Exception as e:
                     w = dict(env=fmt_env(wit["env"]), error=repr(e))
